@@ -22,6 +22,7 @@ func checkC06(c *Ctx, r *Report) {
 	ruleParserProgress(c, r, "parser-progress", spec)
 	ruleLexerProgress(c, r, "lexer-progress")
 	checkJumpArith(c, r, "forward-only")
+	ruleVarintWrappers(c, r, "operand-codec", "")
 	if m, err := c.emitModel(); err == nil {
 		r.rule("no-loop-op", 1, "the compiler never emits LOOP: every jump goes forward, pc strictly increases, execution reaches RET")
 		r.check(!m.Emitted["opLOOP"], "no-loop-op", "LOOP", "never emitted", "the compiler emits LOOP (a backward jump): a compiled program may not terminate", "")
